@@ -9,6 +9,11 @@ import KfacVerif.Model.Sched
 import KfacVerif.Lemmas.NeoxTopo
 import KfacVerif.Lemmas.Bucket
 
+/- decidable equality of communicator states (the model derives it for items and events only):
+    lets closed statements about `(run c ops).comm` be settled by `decide +kernel` -/
+deriving instance DecidableEq for KV.Comm.Bucket
+deriving instance DecidableEq for KV.Comm.CState
+
 namespace KV.C11S
 open KV KV.Neox KV.NeoxS KV.C12
 
@@ -44,6 +49,8 @@ theorem wfAux_map_toG (n : Nat) : ∀ (l : List NAct) (seen : List (List Nat)),
     · simpa using h3 hk
     · rfl
     · rfl
+    · rfl
+    · rfl
 
 /-! ### the per-collective predicate carried through the run -/
 
@@ -53,16 +60,21 @@ def Grp (c : NeoxS.Cfg) (a : NAct) : Prop :=
         (a.kind = .allgather ∨ a.kind = .reducescatter ∨ a.kind = .broadcast)) ∨
     (∃ p m, p < c.t.pp ∧ m < c.t.mp ∧ a.members = dataGroup c p m ∧
         (a.kind = .allreduce ∨ a.kind = .broadcast)) ∨
-    (∃ p, p < c.t.pp ∧ a.members = c.t.stagePeers p ∧ a.kind = .allreduce)
+    (∃ p, p < c.t.pp ∧ a.members = c.t.stagePeers p ∧ a.kind = .allreduce) ∨
+    (a.members = worldGroup c ∧ (a.kind = .gatherobj ∨ a.kind = .barrier))
 
-def Ok (c : NeoxS.Cfg) (a : NAct) : Prop := GoodB c.t.world a ∧ Grp c a
+/-- `P` switches the well-formedness half on: the classification `Grp` holds for every history, the
+    well-formedness of the world-wide collectives of a checkpoint needs a world of two -/
+def Ok (P : Prop) (c : NeoxS.Cfg) (a : NAct) : Prop := (P → GoodB c.t.world a) ∧ Grp c a
+
+variable {P : Prop}
 
 /-- a legal bucket key: an all-reduce on it is fine whatever its size -/
-def KeyOk (c : NeoxS.Cfg) (g : List Nat) : Prop :=
-  ∀ e, Ok c { members := g, kind := .allreduce, elems := e, root := 0 }
+def KeyOk (P : Prop) (c : NeoxS.Cfg) (g : List Nat) : Prop :=
+  ∀ e, Ok P c { members := g, kind := .allreduce, elems := e, root := 0 }
 
-def Inv (c : NeoxS.Cfg) (s : St) : Prop :=
-  (∀ a ∈ s.acts, Ok c a) ∧ (∀ k ∈ s.comm.buckets.map (·.1), KeyOk c k)
+def Inv (P : Prop) (c : NeoxS.Cfg) (s : St) : Prop :=
+  (∀ a ∈ s.acts, Ok P c a) ∧ (∀ k ∈ s.comm.buckets.map (·.1), KeyOk P c k)
 
 theorem foldl_inv {α σ : Type} (I : σ → Prop) (f : σ → α → σ) : ∀ (l : List α) (s : σ), I s →
     (∀ s x, x ∈ l → I s → I (f s x)) → I (l.foldl f s)
@@ -101,18 +113,18 @@ theorem dataGroup_lt (c : NeoxS.Cfg) (h : TopoOK c.t) {p m : Nat} (hp : p < c.t.
   exact (coord_rank' c.t h hp hd hm).1
 
 theorem KeyOk_stage (c : NeoxS.Cfg) (h : TopoOK c.t) {p : Nat} (hp : p < c.t.pp)
-    (hlen : (c.t.stagePeers p).length ≠ 1) : KeyOk c (c.t.stagePeers p) := by
+    (hlen : (c.t.stagePeers p).length ≠ 1) : KeyOk P c (c.t.stagePeers p) := by
   intro e
-  refine ⟨⟨fun x hx => ((stagePeers_spec' _ _ _).1 hx).1, ?_, fun hk => by cases hk⟩,
-    .inr (.inr ⟨p, hp, rfl, rfl⟩)⟩
+  refine ⟨fun _ => ⟨fun x hx => ((stagePeers_spec' _ _ _).1 hx).1, ?_, fun hk => by cases hk⟩,
+    .inr (.inr (.inl ⟨p, hp, rfl, rfl⟩))⟩
   have := List.length_pos_iff.2 (stagePeers_ne_nil c.t h hp)
   show 2 ≤ (c.t.stagePeers p).length
   omega
 
 theorem KeyOk_data (c : NeoxS.Cfg) (h : TopoOK c.t) {p m : Nat} (hp : p < c.t.pp) (hm : m < c.t.mp)
-    (hlen : (dataGroup c p m).length ≠ 1) : KeyOk c (dataGroup c p m) := by
+    (hlen : (dataGroup c p m).length ≠ 1) : KeyOk P c (dataGroup c p m) := by
   intro e
-  refine ⟨⟨dataGroup_lt c h hp hm, ?_, fun hk => by cases hk⟩, .inr (.inl ⟨p, m, hp, hm, rfl, .inl rfl⟩)⟩
+  refine ⟨fun _ => ⟨dataGroup_lt c h hp hm, ?_, fun hk => by cases hk⟩, .inr (.inl ⟨p, m, hp, hm, rfl, .inl rfl⟩)⟩
   have := h.dp
   rw [length_dataGroup] at hlen
   show 2 ≤ (dataGroup c p m).length
@@ -120,21 +132,17 @@ theorem KeyOk_data (c : NeoxS.Cfg) (h : TopoOK c.t) {p m : Nat} (hp : p < c.t.pp
   omega
 
 theorem Ok_model (c : NeoxS.Cfg) (h : TopoOK c.t) {p d : Nat} (hp : p < c.t.pp) (hd : d < c.t.dp)
-    (hlen : ¬ (modelGroup c p d).length ≤ 1) (k : Kind) (e r : Nat) (hk : k ≠ .allreduce)
+    (hlen : ¬ (modelGroup c p d).length ≤ 1) (k : Kind) (e r : Nat)
+    (hk : k = .allgather ∨ k = .reducescatter ∨ k = .broadcast)
     (hr : k = .broadcast → r ∈ modelGroup c p d) :
-    Ok c { members := modelGroup c p d, kind := k, elems := e, root := r } := by
-  refine ⟨⟨modelGroup_lt c h hp hd, by show 2 ≤ (modelGroup c p d).length; omega, hr⟩,
-    .inl ⟨p, d, hp, hd, rfl, ?_⟩⟩
-  cases k
-  · exact absurd rfl hk
-  · exact .inr (.inr rfl)
-  · exact .inl rfl
-  · exact .inr (.inl rfl)
+    Ok P c { members := modelGroup c p d, kind := k, elems := e, root := r } := by
+  exact ⟨fun _ => ⟨modelGroup_lt c h hp hd, by show 2 ≤ (modelGroup c p d).length; omega, hr⟩,
+    .inl ⟨p, d, hp, hd, rfl, hk⟩⟩
 
 theorem Ok_dataB (c : NeoxS.Cfg) (h : TopoOK c.t) {p m d : Nat} (hp : p < c.t.pp) (hm : m < c.t.mp)
     (hd : d < c.t.dp) (hlen : ¬ (dataGroup c p m).length ≤ 1) (e : Nat) :
-    Ok c { members := dataGroup c p m, kind := .broadcast, elems := e, root := c.t.rankOf p d m } := by
-  refine ⟨⟨dataGroup_lt c h hp hm, by show 2 ≤ (dataGroup c p m).length; omega,
+    Ok P c { members := dataGroup c p m, kind := .broadcast, elems := e, root := c.t.rankOf p d m } := by
+  refine ⟨fun _ => ⟨dataGroup_lt c h hp hm, by show 2 ≤ (dataGroup c p m).length; omega,
     fun _ => (mem_dataGroup c p m _).2 ⟨d, hd, rfl⟩⟩, .inr (.inl ⟨p, m, hp, hm, rfl, .inr rfl⟩)⟩
 
 /-! ### the inverse worker of a registered layer -/
@@ -227,8 +235,8 @@ theorem flush_inv (K : Comm.Key → Prop) (s : Comm.CState) (hs : ∀ k ∈ s.bu
 /-! ### the script operations preserve the invariant -/
 
 theorem Inv_events (c : NeoxS.Cfg) {acts : List NAct} {evs : List Comm.Event}
-    (ha : ∀ a ∈ acts, Ok c a) (he : ∀ ev ∈ evs, ∃ k t e, ev = .allreduce k t e ∧ KeyOk c k) :
-    ∀ a ∈ acts ++ evs.map ofEvent, Ok c a := by
+    (ha : ∀ a ∈ acts, Ok P c a) (he : ∀ ev ∈ evs, ∃ k t e, ev = .allreduce k t e ∧ KeyOk P c k) :
+    ∀ a ∈ acts ++ evs.map ofEvent, Ok P c a := by
   intro a hm
   rcases List.mem_append.1 hm with hm | hm
   · exact ha a hm
@@ -236,9 +244,9 @@ theorem Inv_events (c : NeoxS.Cfg) {acts : List NAct} {evs : List Comm.Event}
     obtain ⟨k, t, e, rfl, hk⟩ := he ev hev
     exact hk e
 
-theorem Inv_emitIf (c : NeoxS.Cfg) (s : St) (g : List Nat) (k : Kind) (e r : Nat) (hs : Inv c s)
-    (hg : ¬ g.length ≤ 1 → Ok c { members := g, kind := k, elems := e, root := r }) :
-    Inv c (emitIf s g k e r) := by
+theorem Inv_emitIf (c : NeoxS.Cfg) (s : St) (g : List Nat) (k : Kind) (e r : Nat) (hs : Inv P c s)
+    (hg : ¬ g.length ≤ 1 → Ok P c { members := g, kind := k, elems := e, root := r }) :
+    Inv P c (emitIf s g k e r) := by
   unfold emitIf
   split
   · exact hs
@@ -249,46 +257,46 @@ theorem Inv_emitIf (c : NeoxS.Cfg) (s : St) (g : List Nat) (k : Kind) (e r : Nat
     · exact hs.1 a ha
     · rw [List.mem_singleton.1 ha]; exact hg hlen
 
-theorem Inv_reduceFactor (c : NeoxS.Cfg) (s : St) (g : List Nat) (n : Nat) (hs : Inv c s)
-    (hg : g.length ≠ 1 → KeyOk c g) : Inv c (reduceFactor c s g n) := by
+theorem Inv_reduceFactor (c : NeoxS.Cfg) (s : St) (g : List Nat) (n : Nat) (hs : Inv P c s)
+    (hg : g.length ≠ 1 → KeyOk P c g) : Inv P c (reduceFactor c s g n) := by
   unfold reduceFactor
   cases hb : c.bucketed
-  · obtain ⟨h1, h2⟩ := ar_inv (KeyOk c) s.comm g s.tid [n, n] c.sym hg
+  · obtain ⟨h1, h2⟩ := ar_inv (KeyOk P c) s.comm g s.tid [n, n] c.sym hg
     refine ⟨Inv_events c hs.1 (by simpa using h2), ?_⟩
     simp only [Bool.false_eq_true, if_false, h1]
     exact hs.2
-  · obtain ⟨h1, h2⟩ := arB_inv (KeyOk c) s.comm g s.tid [n, n] c.esize 0 c.sym hs.2 hg
+  · obtain ⟨h1, h2⟩ := arB_inv (KeyOk P c) s.comm g s.tid [n, n] c.esize 0 c.sym hs.2 hg
     exact ⟨Inv_events c hs.1 (by simpa using h2), by simpa using h1⟩
 
-theorem Inv_flush (c : NeoxS.Cfg) (s : St) (hs : Inv c s) : Inv c (NeoxS.flush s) := by
-  obtain ⟨h1, h2⟩ := flush_inv (KeyOk c) s.comm hs.2
+theorem Inv_flush (c : NeoxS.Cfg) (s : St) (hs : Inv P c s) : Inv P c (NeoxS.flush s) := by
+  obtain ⟨h1, h2⟩ := flush_inv (KeyOk P c) s.comm hs.2
   exact ⟨Inv_events c hs.1 h2, h1⟩
 
 theorem Inv_gathers (c : NeoxS.Cfg) (h : TopoOK c.t) {p : Nat} (hp : p < c.t.pp) (e : Nat) (s : St)
-    (hs : Inv c s) :
-    Inv c ((List.range c.t.dp).foldl (fun s d => emitIf s (modelGroup c p d) .allgather e 0) s) := by
-  refine foldl_inv (Inv c) _ _ s hs ?_
+    (hs : Inv P c s) :
+    Inv P c ((List.range c.t.dp).foldl (fun s d => emitIf s (modelGroup c p d) .allgather e 0) s) := by
+  refine foldl_inv (Inv P c) _ _ s hs ?_
   intro s d hd hs
   exact Inv_emitIf c s _ _ _ _ hs fun hlen =>
     Ok_model c h hp (List.mem_range.1 hd) hlen _ _ _ (by decide) (fun hk => by cases hk)
 
 theorem Inv_reduceA (c : NeoxS.Cfg) (h : TopoOK c.t) {p : Nat} (hp : p < c.t.pp) (s : St) (l : Layer)
-    (hs : Inv c s) : Inv c (reduceA c p s l) := by
+    (hs : Inv P c s) : Inv P c (reduceA c p s l) := by
   unfold reduceA
   cases l.par
   · exact Inv_reduceFactor c s _ _ hs (KeyOk_stage c h hp)
   · exact Inv_reduceFactor c s _ _ hs (KeyOk_data c h hp (Nat.mod_lt _ h.mp))
 
 theorem Inv_reduceG (c : NeoxS.Cfg) (h : TopoOK c.t) {p : Nat} (hp : p < c.t.pp) (s : St) (l : Layer)
-    (hs : Inv c s) : Inv c (reduceG c p s l) := by
+    (hs : Inv P c s) : Inv P c (reduceG c p s l) := by
   unfold reduceG
   cases l.par
   · exact Inv_reduceFactor c s _ _ hs (KeyOk_data c h hp (Nat.mod_lt _ h.mp))
   · exact Inv_reduceFactor c s _ _ hs (KeyOk_stage c h hp)
 
 theorem Inv_fwdLayer (c : NeoxS.Cfg) (h : TopoOK c.t) {p : Nat} (hp : p < c.t.pp) (fire : Bool) (s : St)
-    (l : Layer) (hs : Inv c s) : Inv c (fwdLayer c p fire s l) := by
-  have h1 : Inv c (match l.par with
+    (l : Layer) (hs : Inv P c s) : Inv P c (fwdLayer c p fire s l) := by
+  have h1 : Inv P c (match l.par with
       | .col => s
       | .row => (List.range c.t.dp).foldl
           (fun s d => emitIf s (modelGroup c p d) .allgather (c.tokens * (l.inF / c.t.mp)) 0) s) := by
@@ -301,8 +309,8 @@ theorem Inv_fwdLayer (c : NeoxS.Cfg) (h : TopoOK c.t) {p : Nat} (hp : p < c.t.pp
   · exact Inv_reduceA c h hp _ l h1
 
 theorem Inv_bwdLayer (c : NeoxS.Cfg) (h : TopoOK c.t) {p : Nat} (hp : p < c.t.pp) (fire : Bool) (s : St)
-    (l : Layer) (hs : Inv c s) : Inv c (bwdLayer c p fire s l) := by
-  have h1 : Inv c (match l.par with
+    (l : Layer) (hs : Inv P c s) : Inv P c (bwdLayer c p fire s l) := by
+  have h1 : Inv P c (match l.par with
       | .row => s
       | .col => (List.range c.t.dp).foldl
           (fun s d => emitIf s (modelGroup c p d) .allgather (c.tokens * (l.outF / c.t.mp)) 0) s) := by
@@ -314,35 +322,36 @@ theorem Inv_bwdLayer (c : NeoxS.Cfg) (h : TopoOK c.t) {p : Nat} (hp : p < c.t.pp
   · exact h1
   · exact Inv_reduceG c h hp _ l h1
 
-theorem Inv_trainPass (c : NeoxS.Cfg) (h : TopoOK c.t) (s : St) (hs : Inv c s) : Inv c (trainPass c s) := by
+theorem Inv_trainPass (c : NeoxS.Cfg) (h : TopoOK c.t) (s : St) (hs : Inv P c s) : Inv P c (trainPass c s) := by
   unfold trainPass
   split
   · exact hs
-  · show Inv c ((List.range c.t.pp).foldl _ s)
-    refine foldl_inv (Inv c) _ _ s hs ?_
+  · show Inv P c ((List.range c.t.pp).foldl _ s)
+    refine foldl_inv (Inv P c) _ _ s hs ?_
     intro s p hp hs
     have hp := List.mem_range.1 hp
-    refine foldl_inv (Inv c) _ _ _ ?_ (fun s l _ hs => Inv_bwdLayer c h hp _ s l hs)
-    exact foldl_inv (Inv c) _ _ _ hs (fun s l _ hs => Inv_fwdLayer c h hp _ s l hs)
+    refine foldl_inv (Inv P c) _ _ _ ?_ (fun s l _ hs => Inv_bwdLayer c h hp _ s l hs)
+    exact foldl_inv (Inv P c) _ _ _ hs (fun s l _ hs => Inv_fwdLayer c h hp _ s l hs)
 
 theorem Inv_precondLayer (c : NeoxS.Cfg) (h : TopoOK c.t) {p : Nat} (hp : p < c.t.pp) (s : St) (l : Layer)
-    (hl : l ∈ c.stages.getD p []) (hs : Inv c s) : Inv c (precondLayer c p s l) := by
+    (hl : l ∈ c.stages.getD p []) (hs : Inv P c s) : Inv P c (precondLayer c p s l) := by
   obtain ⟨_, hw, hpipe⟩ := invOf_spec c h hp hl
   obtain ⟨_, hd, hm, hrk⟩ := rank_coord' c.t h hw
   rw [hpipe] at hrk
   have hroot : invOf c p l ∈ modelGroup c p (c.t.dataOf (invOf c p l)) :=
     (mem_modelGroup _ _ _ _).2 ⟨_, hm, hrk⟩
-  have hM : ∀ (s : St) (k : Kind) (e r : Nat), Inv c s → k ≠ .allreduce →
+  have hM : ∀ (s : St) (k : Kind) (e r : Nat), Inv P c s →
+      (k = .allgather ∨ k = .reducescatter ∨ k = .broadcast) →
       (k = .broadcast → r = invOf c p l) →
-      Inv c (emitIf s (modelGroup c p (c.t.dataOf (invOf c p l))) k e r) := by
+      Inv P c (emitIf s (modelGroup c p (c.t.dataOf (invOf c p l))) k e r) := by
     intro s k e r hs hk hr
     exact Inv_emitIf c s _ _ _ _ hs fun hlen =>
       Ok_model c h hp hd hlen _ _ _ hk (fun hb => by rw [hr hb]; exact hroot)
   unfold precondLayer
   simp only
-  refine foldl_inv (Inv c) _ _ _ ?_ ?_
+  refine foldl_inv (Inv P c) _ _ _ ?_ ?_
   · have s1 := hM s .allgather (l.outF * l.inF / c.t.mp) 0 hs (by decide) (fun hk => by cases hk)
-    have s2 : Inv c (if (l.bias && l.par == .col) = true then
+    have s2 : Inv P c (if (l.bias && l.par == .col) = true then
         emitIf (emitIf s (modelGroup c p (c.t.dataOf (invOf c p l))) .allgather (l.outF * l.inF / c.t.mp) 0)
           (modelGroup c p (c.t.dataOf (invOf c p l))) .allgather (l.outF / c.t.mp) 0
         else emitIf s (modelGroup c p (c.t.dataOf (invOf c p l))) .allgather (l.outF * l.inF / c.t.mp) 0) := by
@@ -358,47 +367,97 @@ theorem Inv_precondLayer (c : NeoxS.Cfg) (h : TopoOK c.t) {p : Nat} (hp : p < c.
   · intro s m hm hs
     exact Inv_emitIf c s _ _ _ _ hs fun hlen => Ok_dataB c h hp (List.mem_range.1 hm) hd hlen _
 
-theorem Inv_stepReduce (c : NeoxS.Cfg) (h : TopoOK c.t) (s : St) (hs : Inv c s) :
-    Inv c (if (!c.hook && s.steps % c.fus == 0) = true then
+theorem Inv_stepReduce (c : NeoxS.Cfg) (h : TopoOK c.t) (s : St) (hs : Inv P c s) :
+    Inv P c (if (!c.hook && s.steps % c.fus == 0) = true then
       (List.range c.t.pp).foldl (fun s p =>
         (c.stages.getD p []).reverse.foldl (fun s l => reduceG c p (reduceA c p s l) l) s) s
       else s) := by
   split
-  · refine foldl_inv (Inv c) _ _ s hs ?_
+  · refine foldl_inv (Inv P c) _ _ s hs ?_
     intro s p hp hs
     have hp := List.mem_range.1 hp
-    exact foldl_inv (Inv c) _ _ _ hs
+    exact foldl_inv (Inv P c) _ _ _ hs
       (fun s l _ hs => Inv_reduceG c h hp _ l (Inv_reduceA c h hp s l hs))
   · exact hs
 
-theorem Inv_stepOp (c : NeoxS.Cfg) (h : TopoOK c.t) (s : St) (hs : Inv c s) : Inv c (stepOp c s) := by
+theorem Inv_stepOp (c : NeoxS.Cfg) (h : TopoOK c.t) (s : St) (hs : Inv P c s) : Inv P c (stepOp c s) := by
   unfold stepOp
-  have key : ∀ s0, Inv c s0 → Inv c (NeoxS.flush ((List.range c.t.pp).foldl
+  have key : ∀ s0, Inv P c s0 → Inv P c (NeoxS.flush ((List.range c.t.pp).foldl
       (fun s p => (c.stages.getD p []).reverse.foldl (precondLayer c p) s) (NeoxS.flush (NeoxS.flush s0)))) := by
     intro s0 hs0
-    refine Inv_flush c _ (foldl_inv (Inv c) _ _ _ (Inv_flush c _ (Inv_flush c _ hs0)) ?_)
+    refine Inv_flush c _ (foldl_inv (Inv P c) _ _ _ (Inv_flush c _ (Inv_flush c _ hs0)) ?_)
     intro s p hp hs
-    exact foldl_inv (Inv c) _ _ _ hs
+    exact foldl_inv (Inv P c) _ _ _ hs
       (fun s l hl hs => Inv_precondLayer c h (List.mem_range.1 hp) s l (List.mem_reverse.1 hl) hs)
   exact key _ (Inv_stepReduce c h s hs)
 
-theorem Inv_init (c : NeoxS.Cfg) : Inv c (St.init c) := by
+theorem Inv_init (c : NeoxS.Cfg) : Inv P c (St.init c) := by
   constructor <;> intro a ha <;> simp [St.init] at ha
 
-theorem Inv_run (c : NeoxS.Cfg) (h : TopoOK c.t) (ops : List Op) : Inv c (run c ops) := by
+/-! ### checkpoints: world-wide collectives -/
+
+theorem Ok_world (c : NeoxS.Cfg) (hw : P → 2 ≤ c.t.world) (k : Kind)
+    (hk : k = .gatherobj ∨ k = .barrier) :
+    Ok P c { members := worldGroup c, kind := k, elems := 1, root := 0 } := by
+  refine ⟨fun hP => ⟨fun x hx => List.mem_range.1 hx, ?_, ?_⟩, .inr (.inr (.inr ⟨rfl, hk⟩))⟩
+  · show 2 ≤ (worldGroup c).length
+    simpa [worldGroup] using hw hP
+  · intro hb
+    rcases hk with hk | hk <;> rw [hk] at hb <;> cases hb
+
+theorem Inv_emitWorld (c : NeoxS.Cfg) (hw : P → 2 ≤ c.t.world) (s : St) (k : Kind)
+    (hk : k = .gatherobj ∨ k = .barrier) (hs : Inv P c s) : Inv P c (emitWorld c s k) := by
+  refine ⟨?_, hs.2⟩
+  intro a ha
+  rcases List.mem_append.1 ha with ha | ha
+  · exact hs.1 a ha
+  · rw [List.mem_singleton.1 ha]; exact Ok_world c hw k hk
+
+theorem Inv_saveOp (c : NeoxS.Cfg) (hw : P → 2 ≤ c.t.world) (dir : Bool) (s : St) (hs : Inv P c s) :
+    Inv P c (saveOp c dir s) := by
+  have h1 : Inv P c (if dir then emitWorld c s .barrier
+      else emitWorld c (emitWorld c s .gatherobj) .barrier) := by
+    cases dir
+    · exact Inv_emitWorld c hw _ _ (.inr rfl) (Inv_emitWorld c hw _ _ (.inl rfl) hs)
+    · exact Inv_emitWorld c hw _ _ (.inr rfl) hs
+  exact h1
+
+theorem Inv_loadOp (c : NeoxS.Cfg) (hw : P → 2 ≤ c.t.world) (dir fresh : Bool) (s : St)
+    (hs : Inv P c s) : Inv P c (loadOp c dir fresh s) := by
+  have h1 : Inv P c (if dir then s else emitWorld c s .barrier) := by
+    cases dir
+    · exact Inv_emitWorld c hw _ _ (.inr rfl) hs
+    · exact hs
+  refine ⟨h1.1, ?_⟩
+  show ∀ k ∈ (if fresh then ({ cap := c.cap, buckets := [] } : Comm.CState)
+      else (if dir then s else emitWorld c s .barrier).comm).buckets.map (·.1), KeyOk P c k
+  cases fresh
+  · exact h1.2
+  · intro k hk; simp at hk
+
+theorem Inv_run (c : NeoxS.Cfg) (h : TopoOK c.t) (ops : List Op)
+    (hw : P → (2 ≤ c.t.world ∨ ∀ op ∈ ops, op.isCkpt = false)) : Inv P c (run c ops) := by
   unfold run
-  refine foldl_inv (Inv c) _ _ _ (Inv_init c) ?_
-  intro s op _ hs
+  refine foldl_inv (Inv P c) _ _ _ (Inv_init c) ?_
+  intro s op hop hs
+  have hck : op.isCkpt = true → P → 2 ≤ c.t.world := by
+    intro hc hP
+    rcases hw hP with h2 | h2
+    · exact h2
+    · rw [h2 op hop] at hc; cases hc
   cases op
   · exact Inv_trainPass c h s hs
   · exact Inv_stepOp c h s hs
+  · exact Inv_saveOp c (hck rfl) _ s hs
+  · exact Inv_loadOp c (hck rfl) _ _ s hs
 
-theorem run_wf (c : NeoxS.Cfg) (hc : NCfgOK c) (ops : List Op) :
+theorem run_wf (c : NeoxS.Cfg) (hc : NCfgOK c) (ops : List Op)
+    (hw : 2 ≤ c.t.world ∨ ∀ op ∈ ops, op.isCkpt = false) :
     KV.Sched2.wf c.t.world ((run c ops).acts.map toG) = true :=
-  wfAux_map_toG _ _ _ (fun a ha => ((Inv_run c hc.topo ops).1 a ha).1)
+  wfAux_map_toG _ _ _ (fun a ha => ((Inv_run (P := True) c hc.topo ops (fun _ => hw)).1 a ha).1 trivial)
 
 theorem run_groups (c : NeoxS.Cfg) (hc : NCfgOK c) (ops : List Op) (a : NAct) (ha : a ∈ (run c ops).acts) :
-    Grp c a := ((Inv_run c hc.topo ops).1 a ha).2
+    Grp c a := ((Inv_run (P := False) c hc.topo ops (fun h => h.elim)).1 a ha).2
 
 /-! ### assignment -/
 
@@ -559,5 +618,215 @@ theorem pass_only_gathers_l (c : NeoxS.Cfg) (s : St)
     intro s p _
     exact (foldl_ext IsGather _ _ s (fun s l _ => Ext_fwdLayer c p s l)).trans
       (foldl_ext IsGather _ _ _ (fun s l _ => Ext_bwdLayer c p s l))
+
+/-! ### checkpoints -/
+
+theorem ckpt_every_rank_l (c : NeoxS.Cfg) (hc : NCfgOK c) (ops : List Op) (a : NAct)
+    (ha : a ∈ (run c ops).acts) (hk : a.kind = .gatherobj ∨ a.kind = .barrier) (r : Nat)
+    (hr : r < c.t.world) : a ∈ project r (run c ops).acts := by
+  have hm : a.members = worldGroup c := by
+    rcases run_groups c hc ops a ha with ⟨_, _, _, _, _, h⟩ | ⟨_, _, _, _, _, h⟩ | ⟨_, _, _, h⟩ | ⟨h, _⟩
+    · rcases hk with hk | hk <;> rw [hk] at h <;> simp at h
+    · rcases hk with hk | hk <;> rw [hk] at h <;> simp at h
+    · rcases hk with hk | hk <;> rw [hk] at h <;> simp at h
+    · exact h
+  unfold project
+  refine List.mem_filter.2 ⟨ha, ?_⟩
+  rw [hm]
+  simpa [worldGroup] using hr
+
+theorem ckpt_script_l (c : NeoxS.Cfg) (s : St) (fresh : Bool) :
+    (saveOp c false s).acts = s.acts ++ [⟨worldGroup c, .gatherobj, 1, 0⟩, ⟨worldGroup c, .barrier, 1, 0⟩] ∧
+    (saveOp c true s).acts = s.acts ++ [⟨worldGroup c, .barrier, 1, 0⟩] ∧
+    (loadOp c false fresh s).acts = s.acts ++ [⟨worldGroup c, .barrier, 1, 0⟩] ∧
+    (loadOp c true fresh s).acts = s.acts := by
+  simp [saveOp, loadOp, emitWorld]
+
+/-! ### the model never reads `acts` or (outside `loadOp`) `kept`
+
+`Sim s s'`: the two states agree on everything the hooks and `step()` read.  `Uni f`: `f` maps
+similar states to similar states, keeps `kept` and appends the SAME collectives to both scripts. -/
+
+def Sim (s s' : St) : Prop :=
+  s.steps = s'.steps ∧ s.mini = s'.mini ∧ s.tid = s'.tid ∧ s.comm = s'.comm
+
+theorem Sim.refl (s : St) : Sim s s := ⟨rfl, rfl, rfl, rfl⟩
+
+def Uni (f : St → St) : Prop :=
+  ∀ s s', Sim s s' → Sim (f s) (f s') ∧ (f s).kept = s.kept ∧
+    ∃ extra, (f s).acts = s.acts ++ extra ∧ (f s').acts = s'.acts ++ extra
+
+theorem Uni.id : Uni (fun s => s) := fun _ _ h => ⟨h, rfl, [], by simp, by simp⟩
+
+theorem Uni.comp {f g : St → St} (hf : Uni f) (hg : Uni g) : Uni (fun s => g (f s)) := by
+  intro s s' h
+  obtain ⟨h1, k1, e1, a1, b1⟩ := hf s s' h
+  obtain ⟨h2, k2, e2, a2, b2⟩ := hg _ _ h1
+  exact ⟨h2, k2.trans k1, e1 ++ e2, by rw [a2, a1, List.append_assoc], by rw [b2, b1, List.append_assoc]⟩
+
+theorem Uni.foldl {α : Type} (f : St → α → St) : ∀ (l : List α),
+    (∀ x ∈ l, Uni (fun s => f s x)) → Uni (fun s => l.foldl f s)
+  | [], _ => Uni.id
+  | x :: t, hf => by
+    simp only [List.foldl_cons]
+    exact Uni.comp (hf x (List.mem_cons_self ..))
+      (Uni.foldl f t (fun y hy => hf y (List.mem_cons_of_mem _ hy)))
+
+theorem Uni.ite (b : Bool) {f g : St → St} (hf : Uni f) (hg : Uni g) :
+    Uni (fun s => if b then f s else g s) := by
+  cases b
+  · exact hg
+  · exact hf
+
+theorem Uni_emitIf (g : List Nat) (k : Kind) (e r : Nat) : Uni (fun s => emitIf s g k e r) := by
+  intro s s' h
+  unfold emitIf
+  split
+  · exact ⟨h, rfl, [], by simp, by simp⟩
+  · exact ⟨h, rfl, _, rfl, rfl⟩
+
+theorem Uni_reduceFactor (c : NeoxS.Cfg) (g : List Nat) (n : Nat) : Uni (fun s => reduceFactor c s g n) := by
+  intro s s' h
+  obtain ⟨st, mi, ti, ke, co, ac⟩ := s
+  obtain ⟨st', mi', ti', ke', co', ac'⟩ := s'
+  obtain ⟨h1, h2, h3, h4⟩ := h
+  simp only at h1 h2 h3 h4
+  subst h1 h2 h3 h4
+  exact ⟨⟨rfl, rfl, rfl, rfl⟩, rfl, _, rfl, rfl⟩
+
+theorem Uni_flush : Uni NeoxS.flush := by
+  intro s s' h
+  obtain ⟨st, mi, ti, ke, co, ac⟩ := s
+  obtain ⟨st', mi', ti', ke', co', ac'⟩ := s'
+  obtain ⟨h1, h2, h3, h4⟩ := h
+  simp only at h1 h2 h3 h4
+  subst h1 h2 h3 h4
+  exact ⟨⟨rfl, rfl, rfl, rfl⟩, rfl, _, rfl, rfl⟩
+
+theorem Uni_reduceA (c : NeoxS.Cfg) (p : Nat) (l : Layer) : Uni (fun s => reduceA c p s l) := by
+  unfold reduceA
+  cases l.par
+  · exact Uni_reduceFactor c _ _
+  · exact Uni_reduceFactor c _ _
+
+theorem Uni_reduceG (c : NeoxS.Cfg) (p : Nat) (l : Layer) : Uni (fun s => reduceG c p s l) := by
+  unfold reduceG
+  cases l.par
+  · exact Uni_reduceFactor c _ _
+  · exact Uni_reduceFactor c _ _
+
+theorem Uni_gathers (c : NeoxS.Cfg) (p e : Nat) :
+    Uni (fun s => (List.range c.t.dp).foldl (fun s d => emitIf s (modelGroup c p d) .allgather e 0) s) :=
+  Uni.foldl _ _ (fun _ _ => Uni_emitIf _ _ _ _)
+
+theorem Uni_fwdLayer (c : NeoxS.Cfg) (p : Nat) (fire : Bool) (l : Layer) :
+    Uni (fun s => fwdLayer c p fire s l) := by
+  unfold fwdLayer
+  cases fire <;> cases l.par
+  · exact Uni.id
+  · exact Uni_gathers c p _
+  · exact Uni_reduceA c p l
+  · exact Uni.comp (Uni_gathers c p _) (Uni_reduceA c p l)
+
+theorem Uni_bwdLayer (c : NeoxS.Cfg) (p : Nat) (fire : Bool) (l : Layer) :
+    Uni (fun s => bwdLayer c p fire s l) := by
+  unfold bwdLayer
+  cases fire <;> cases l.par
+  · exact Uni_gathers c p _
+  · exact Uni.id
+  · exact Uni.comp (Uni_gathers c p _) (Uni_reduceG c p l)
+  · exact Uni_reduceG c p l
+
+theorem Uni_trainPass (c : NeoxS.Cfg) : Uni (trainPass c) := by
+  intro s s' h
+  have body : ∀ fire : Bool, Uni (fun s => (List.range c.t.pp).foldl (fun s p =>
+      ((c.stages.getD p []).reverse).foldl (bwdLayer c p fire)
+        ((c.stages.getD p []).foldl (fwdLayer c p fire) s)) s) := fun fire =>
+    Uni.foldl _ _ (fun p _ =>
+      Uni.comp (Uni.foldl _ _ (fun l _ => Uni_fwdLayer c p fire l))
+        (Uni.foldl _ _ (fun l _ => Uni_bwdLayer c p fire l)))
+  unfold trainPass
+  rw [← h.1, ← h.2.1]
+  split
+  · exact ⟨h, rfl, [], by simp, by simp⟩
+  · obtain ⟨⟨h1, _, h3, h4⟩, k, e, a, b⟩ := body (c.hook && (s.mini + 1) % c.accum == 0) s s' h
+    exact ⟨⟨h1, rfl, h3, h4⟩, k, e, a, b⟩
+
+theorem Uni_precondLayer (c : NeoxS.Cfg) (p : Nat) (l : Layer) : Uni (fun s => precondLayer c p s l) := by
+  have h1 : Uni (fun s => emitIf s (modelGroup c p (c.t.dataOf (invOf c p l))) .allgather
+      (l.outF * l.inF / c.t.mp) 0) := Uni_emitIf _ _ _ _
+  have h2 : Uni (fun s => if l.bias && l.par == .col then
+      emitIf s (modelGroup c p (c.t.dataOf (invOf c p l))) .allgather (l.outF / c.t.mp) 0 else s) :=
+    Uni.ite _ (Uni_emitIf _ _ _ _) Uni.id
+  have h3 : Uni (fun s => emitIf s (modelGroup c p (c.t.dataOf (invOf c p l))) .reducescatter
+      (l.outF * l.inF / c.t.mp) 0) := Uni_emitIf _ _ _ _
+  have h4 : Uni (fun s => if l.bias then
+      (match l.par with
+       | .col => emitIf s (modelGroup c p (c.t.dataOf (invOf c p l))) .reducescatter (l.outF / c.t.mp) 0
+       | .row => emitIf s (modelGroup c p (c.t.dataOf (invOf c p l))) .broadcast l.outF (invOf c p l))
+      else s) := by
+    refine Uni.ite _ ?_ Uni.id
+    cases l.par
+    · exact Uni_emitIf _ _ _ _
+    · exact Uni_emitIf _ _ _ _
+  have h5 : ∀ g : Nat, Uni (fun s => (List.range c.t.mp).foldl (fun s m =>
+      emitIf s (dataGroup c p m) .broadcast g (c.t.rankOf p (c.t.dataOf (invOf c p l)) m)) s) :=
+    fun g => Uni.foldl _ _ (fun _ _ => Uni_emitIf _ _ _ _)
+  exact Uni.comp (Uni.comp (Uni.comp (Uni.comp h1 h2) h3) h4) (h5 _)
+
+theorem Uni_stepOp (c : NeoxS.Cfg) : Uni (stepOp c) := by
+  have tail : Uni (fun s => NeoxS.flush ((List.range c.t.pp).foldl
+      (fun s p => (c.stages.getD p []).reverse.foldl (precondLayer c p) s) (NeoxS.flush (NeoxS.flush s)))) :=
+    Uni.comp (Uni.comp (Uni.comp Uni_flush Uni_flush)
+      (Uni.foldl _ _ (fun p _ => Uni.foldl _ _ (fun l _ => Uni_precondLayer c p l)))) Uni_flush
+  have red : Uni (fun s => (List.range c.t.pp).foldl (fun s p =>
+      (c.stages.getD p []).reverse.foldl (fun s l => reduceG c p (reduceA c p s l) l) s) s) :=
+    Uni.foldl _ _ (fun p _ => Uni.foldl _ _ (fun l _ => Uni.comp (Uni_reduceA c p l) (Uni_reduceG c p l)))
+  intro s s' h
+  obtain ⟨⟨h1, _, h3, h4⟩, k, e, a, b⟩ :=
+    Uni.comp (Uni.ite (!c.hook && s.steps % c.fus == 0) red Uni.id) tail s s' h
+  unfold stepOp
+  rw [← h.1]
+  exact ⟨⟨congrArg (· + 1) h1, rfl, h3, h4⟩, k, e, a, b⟩
+
+theorem Uni_apply (c : NeoxS.Cfg) (op : Op) (h : op.isCkpt = false) : Uni (fun s => apply c s op) := by
+  cases op
+  · exact Uni_trainPass c
+  · exact Uni_stepOp c
+  · cases h
+  · cases h
+
+theorem Uni_ops (c : NeoxS.Cfg) (ops : List Op) (h : ∀ op ∈ ops, op.isCkpt = false) :
+    Uni (fun s => ops.foldl (apply c) s) :=
+  Uni.foldl _ _ (fun op hop => Uni_apply c op (h op hop))
+
+theorem load_restores_steps_l (c : NeoxS.Cfg) (s : St) (dir dir' fresh : Bool) (ops : List Op)
+    (h : ∀ op ∈ ops, op.isCkpt = false) :
+    (loadOp c dir' fresh (ops.foldl (apply c) (saveOp c dir s))).steps = s.steps := by
+  have hs : (saveOp c dir s).kept = s.steps := by cases dir <;> rfl
+  have hk : (ops.foldl (apply c) (saveOp c dir s)).kept = s.steps :=
+    ((Uni_ops c ops h (saveOp c dir s) _ (Sim.refl _)).2.1).trans hs
+  show (if dir' then ops.foldl (apply c) (saveOp c dir s)
+    else emitWorld c (ops.foldl (apply c) (saveOp c dir s)) .barrier).kept = s.steps
+  cases dir'
+  · exact hk
+  · exact hk
+
+theorem resume_same_script_partial_l (c : NeoxS.Cfg) (s : St) (dir : Bool) (ops : List Op)
+    (hb : s.comm = { cap := c.cap, buckets := [] }) (hm : s.mini = 0)
+    (h : ∀ op ∈ ops, op.isCkpt = false) :
+    ∃ ck, (loadOp c dir true (saveOp c dir s)).acts = s.acts ++ ck ∧
+      (ops.foldl (apply c) (loadOp c dir true (saveOp c dir s))).acts =
+        s.acts ++ ck ++ ((ops.foldl (apply c) s).acts.drop s.acts.length) := by
+  have hsim : Sim s (loadOp c dir true (saveOp c dir s)) := by
+    refine ⟨?_, hm, ?_, hb⟩ <;> cases dir <;> rfl
+  have hck : ∃ ck, (loadOp c dir true (saveOp c dir s)).acts = s.acts ++ ck := by
+    cases dir
+    · exact ⟨_, by simp [saveOp, loadOp, emitWorld]; rfl⟩
+    · exact ⟨_, by simp [saveOp, loadOp, emitWorld]; rfl⟩
+  obtain ⟨ck, hck⟩ := hck
+  obtain ⟨_, _, extra, a, b⟩ := Uni_ops c ops h s _ hsim
+  refine ⟨ck, hck, ?_⟩
+  rw [b, a, hck, List.drop_left]
 
 end KV.C11S
